@@ -35,6 +35,7 @@ def must_see(tier):
             m['%s:operand:%s' % (impl, k)] = 5
         m[impl + ':dups-across-operands'] = 10
         m[impl + ':ghost-operands'] = 20
+    m['py:n>=4000'] = 10
     return m
 
 
@@ -164,6 +165,11 @@ def run_shard(spec, rec):
         n = rng.choice(sizes)
         if impl == 'py' and n > 2000:
             n = 802
+        if impl == 'py' and i % 16 == 3:
+            # the pure-Python implementation gathers everything in memory:
+            # totals well beyond any internal batching threshold
+            n = rng.choice([4000, 5000, 9000])
+            rec.ev('py:n>=4000')
         pattern = rng.choice(PATTERNS)
         keys = gen_keys(fam, rng, n, pattern)
         lo, hi = INT_RANGES[fam.kc]
